@@ -255,7 +255,7 @@ Section Inv.
       + intros i s G. apply Ha; eauto.
       + rewrite Hs. intros m [].
     - intros i s G. destruct (Hl s (Hnode _ _ G)) as [A [B C]]. destruct (Ha s (Hnode _ _ G)) as [_ [R _]].
-      unfold base. rewrite A, B, R. repeat split; auto. simpl. auto. congruence.
+      unfold base. rewrite A, B, R. repeat split; auto; try (simpl; auto; fail); congruence.
     - intros i s G R. destruct (Ha s (Hnode _ _ G)) as [_ [R' _]]. congruence.
     - intros i s G R. destruct (Ha s (Hnode _ _ G)) as [_ [R' _]]. congruence.
     - intros t i l [H | []]. inversion H. left. auto.
@@ -317,13 +317,13 @@ Section Inv.
       eapply slice_wf; eauto. eapply (g_rec_wf σ G GI); eauto. }
     pose proof (run_event_crash_lm s ev k crashed st s' (g_base σ G GI i s Gs) Hev4 Hrun) as NI.
     set (s0' := with_budget (settle s) k) in NI.
-    pose proof (v_snap _ _ _ _ _ _ _ NI) as N_snap. pose proof (v_wf _ _ _ _ _ _ _ NI) as N_wf.
-    pose proof (v_n1 _ _ _ _ _ _ _ NI) as N_n1. pose proof (v_n2 _ _ _ _ _ _ _ NI) as N_n2.
-    pose proof (v_tm _ _ _ _ _ _ _ NI) as N_tm. change (p_term (n_p s0')) with (p_term (n_p s)) in N_tm.
-    pose proof (v_rt _ _ _ _ _ _ _ NI) as N_rt. change (p_term (n_p s0')) with (p_term (n_p s)) in N_rt.
+    pose proof (v_snap _ _ _ _ _ _ _ _ _ NI) as N_snap. pose proof (v_wf _ _ _ _ _ _ _ _ _ NI) as N_wf.
+    pose proof (v_n1 _ _ _ _ _ _ _ _ _ NI) as N_n1. pose proof (v_n2 _ _ _ _ _ _ _ _ _ NI) as N_n2.
+    pose proof (v_tm _ _ _ _ _ _ _ _ _ NI) as N_tm. change (p_term (n_p s0')) with (p_term (n_p s)) in N_tm.
+    pose proof (v_rt _ _ _ _ _ _ _ _ _ NI) as N_rt. change (p_term (n_p s0')) with (p_term (n_p s)) in N_rt.
     change (n_role s0') with (n_role s) in N_rt.
-    pose proof (v_lr _ _ _ _ _ _ _ NI) as N_lr. pose proof (v_msgs _ _ _ _ _ _ _ NI) as N_msgs. pose proof (v_lead _ _ _ _ _ _ _ NI) as N_lead.
-    pose proof (g_base σ G GI i s Gs) as [B_snap [B_wf [B_n1 B_n2]]].
+    pose proof (v_lr _ _ _ _ _ _ _ _ _ NI) as N_lr. pose proof (v_msgs _ _ _ _ _ _ _ _ _ NI) as N_msgs. pose proof (v_lead _ _ _ _ _ _ _ _ _ NI) as N_lead.
+    pose proof (g_base σ G GI i s Gs) as [B_snap [B_wf [B_n1 [B_n2 B_pk]]]].
     set (T' := p_term (n_p s')) in *. set (L' := p_log (n_p s')) in *. set (L0 := p_log (n_p s)) in *.
     set (cond := n_role s' = Leader \/ (n_role s = Leader /\ T' = p_term (n_p s))).
     set (G' := G ++ rec_of s s').
@@ -416,7 +416,8 @@ Section Inv.
     - exact El'.
     - rewrite Hlen'. exact I2'.
     - intros j x Hx. destruct (Gcase j x Hx) as [[_ E] | [_ E]]; [subst x | eapply (g_base σ G GI); eauto].
-      unfold base. auto.
+      unfold base. split; auto. split; auto. split; auto. split; auto.
+      intro Hl. destruct (v_ext _ _ _ _ _ _ _ _ _ NI) as [_ [_ [_ Pk]]]. destruct (Pk Hl) as [P1 [P2 _]]. auto.
     - intros j x Hx Hl. destruct (Gcase j x Hx) as [[_ E] | [_ E]].
       + subst x. apply in_or_app. right. unfold hist_of. rewrite Hl. left. reflexivity.
       + apply in_or_app. left. eapply (g_hist_leader σ G GI); eauto.
